@@ -35,4 +35,8 @@ theorem gen_exclusions_as_read :
 theorem gen_recursive_select_test :
     Caco3Paths.recursiveSelectTest = "strings.HasSuffix(sel, \"/**\") || sel == \"**\"" := by decide
 
+/-- `Builder.Build` resolves the requested targets with `makePath` (absolute targets from the
+    workspace root, relative ones from the work dir), not with `makeRelPath` -/
+theorem gen_targets_resolved_with_makePath : Caco3Paths.targetResolver = "makePath" := by decide
+
 end PubModel.C12
